@@ -555,6 +555,8 @@ def gen_static(rng, *, n_leaves=None, nest_depth=2, faults=True, tocks="any", al
     limit = None
     if rng.random() < limit_p:
         limit = rng.choice([0.0, tock, 2 * tock, 2.5 * tock, 0.4 * tock, 3 * tock, 1.0, 0.7])
+        if rng.random() < 0.12:
+            limit = -limit          # a negative limit is legal: the Doist takes its absolute value
     return {"tock": tock, "limit": limit, "tyme": rng.choice([0.0, 0.0, 1.0, 10.5, 0.1]), "doers": doers, "defs": defs, "mode": "do"}
 
 
@@ -763,7 +765,7 @@ def add_reruns(rng, p, n=None):
     k = n if n is not None else rng.choice([1, 1, 2])
     p["again"] = []
     for _ in range(k):
-        p["again"].append({"limit": rng.choice([None, None, p["tock"], 2.5 * p["tock"], 0.7]),
+        p["again"].append({"limit": rng.choice([None, None, p["tock"], 2.5 * p["tock"], 0.7, -2 * p["tock"]]),
                            "tyme": rng.choice([None, None, 0.0, 3.0])})
     if rng.random() < 0.5:
         p["ctor"] = True
